@@ -81,3 +81,7 @@ LEVEL_NOTE["C06"] = "Bounded liveness (10 s, confirmed by re-running the case); 
 LEVEL_TEXT["C08"] = ("Exploration: real UDP listeners (udp4/udp6, 1..4 loops, four read-buffer sizes, default and poll_opt builds) receive generated self-describing datagrams of boundary sizes (0, 1, around the MTU, read-buffer size -1/+0, 65507) from 1..6 concurrent senders while a generated handler script consumes all/part/none and replies with Write and SendTo; "
                      "each event, each reply at each sender, and each SendTo delivery at the third socket is compared byte for byte and counted (exactly once).")
 LEVEL_NOTE["C08"] = "Assumes loop-back UDP does not drop within the harness's in-flight bound (64 KiB, socket buffers raised to 4 MiB); a reply missing for 3 s is reported as a lost event; payloads above the read-buffer size are outside the statement."
+
+LEVEL_TEXT["C19"] = ("Exploration: generated call sequences on an engine handle before start, while running (1..4 goroutines), right after a shutdown request (live or expired context, optionally with a connection that needs 700 ms to close) and after the shutdown, "
+                     "judged by a state x call -> allowed-results table, the exactly-one-result / usable-connection rule for Register and Enroll, run-once for runnables, and 'Stop returns nil only when every opened connection is closed and OnShutdown has run; an expired context returns its error and the shutdown still completes'.")
+LEVEL_NOTE["C19"] = "Calls issued while the shutdown is in progress may legitimately see either answer (Dup may also fail with a system-call error); a Register accepted during shutdown may never deliver (same class as the C07 known finding) and is not judged; client handles are not exercised."
